@@ -1,0 +1,15 @@
+//go:build verif
+
+package fastjsonext
+
+// Effect summaries for the deductive verifier in /verif (comment-only file, build tag verif).
+// JSON values are abstracted by the ghost version global(jver); these helpers append one error object.
+
+//@ func AppendErrorToArray
+//@   modifies global(jver)
+//@   emits errorAdded
+//@   trusted effect summary: appends one error object to the array
+//@ func AppendErrorWithExtensionsCodeToArray
+//@   modifies global(jver)
+//@   emits errorAdded
+//@   trusted effect summary: appends one error object to the array
